@@ -344,6 +344,7 @@ func (env *Env) eq(a, b *ast.Ty, seen map[[2]*ast.Ty]bool) bool {
 // Cyclic reports whether the unfolding of t reaches a cycle (i.e. t is properly recursive).
 func (env *Env) Cyclic(t *ast.Ty) bool {
 	onPath := map[string]bool{}
+	acyclic := map[string]bool{} // names whose unfolding is known to reach no cycle (definitions form a dag: visit each once)
 	var walk func(t *ast.Ty) bool
 	walk = func(t *ast.Ty) bool {
 		if t == nil {
@@ -353,6 +354,9 @@ func (env *Env) Cyclic(t *ast.Ty) bool {
 			if onPath[t.Name] {
 				return true
 			}
+			if acyclic[t.Name] {
+				return false
+			}
 			d := env.Defs[t.Name]
 			if d == nil {
 				return false
@@ -360,6 +364,9 @@ func (env *Env) Cyclic(t *ast.Ty) bool {
 			onPath[t.Name] = true
 			r := walk(d.Ty)
 			onPath[t.Name] = false
+			if !r {
+				acyclic[t.Name] = true
+			}
 			return r
 		}
 		if walk(t.L) || walk(t.R) {
